@@ -1604,6 +1604,13 @@ impl<'a> St<'a> {
         let dest = if p.x[1] % 4 == 0 { p2s(&self.dir.join(format!("out/d{}/x.bin", self.fresh))) } else { p2s(&self.dir.join(format!("out_e{}.bin", self.fresh))) };
         let (cn, cd) = (cs(&name), cs(&dest));
         let null = p.x[2] % 31 == 0;
+        // every third destination already holds a file (an earlier extraction to the same path): longer, shorter, empty
+        if p.x[1] % 3 == 1 && p.x[1] % 4 != 0 {
+            let prior = vec![0xD7u8; [0usize, 1, 700, 70_000, 400_000][(p.x[2] % 5) as usize]];
+            if std::fs::write(&dest, &prior).is_ok() {
+                self.c.count("extractions_over_an_existing_file", 1);
+            }
+        }
         self.begin("SFileExtractFile", label);
         let ok = unsafe { SFileExtractFile(h(id), cn.as_ptr(), if null { ptr::null() } else { cd.as_ptr() }, 0) };
         self.end("SFileExtractFile", label, format!("(h={id}[{label}],{:?}{})->{ok}", short(&name), if null { ",NULLDEST" } else { "" }), ok);
